@@ -273,6 +273,20 @@ func (p *c03) RunCase(ctx *runner.Ctx) runner.CaseResult {
 			op = adapt.Op{Kind: adapt.OpUpdateTable, Table: spec.Name, Chg: []adapt.IndexChange{{Delete: n}, {Create: &d}}}
 		default:
 			op = ixRandomWrite(r, spec.Name, i)
+			if (idx/2)%6 == 4 && r.Intn(8) == 0 {
+				// the SORT key attribute of an index with a wrong type on an item that lacks the index's hash key (so it
+				// would not be indexed anyway): the write is refused like any other index-key type mismatch
+				h, rg := mon.Pick(r, ixHashPool), mon.Pick(r, ixRangePool)
+				it := ixItem(h, rg, "", "", i)
+				it["s"] = mon.Pick(r, []val.V{val.Num("7"), val.Bool(true), val.SS("q"), val.Null()})
+				if ixV("s", "x").K == it["s"].K {
+					it["s"] = val.List(val.Str("x"))
+				}
+				op = adapt.Op{Kind: adapt.OpPut, Table: spec.Name, Item: it}
+				if r.Intn(2) == 0 {
+					op = mon.SetUpdate(spec.Name, val.Item{"h": ixV("h", h), "r": ixV("r", rg)}, "s", it["s"])
+				}
+			}
 			if (idx/2)%6 == 5 && r.Intn(8) == 0 {
 				// (one history in six) an index key attribute that is PRESENT with an empty value (string or binary): the item possesses the
 				// attribute (DynamoDB would refuse the write; the library accepts it, so the item belongs to the index)
